@@ -1044,16 +1044,22 @@ type SpecLib struct {
 	blocks map[Mode][]*specBlock
 	byName map[Mode]map[string]*specBlock
 	fns    map[Mode]map[string]*specFn
+	axioms map[Mode]map[string]bool
 }
+
+var axiomRe = regexp.MustCompile(`^;\s*axiom\s+([A-Za-z_][A-Za-z0-9_.]*)`)
+
+func (l *SpecLib) isAxiom(name string, m Mode) bool { return l.axioms[m][name] }
 
 var sigRe = regexp.MustCompile(`^;\s*sig\s+([A-Za-z_][A-Za-z0-9_.]*)\(([^)]*)\)\s*(\S+)`)
 var symRe = regexp.MustCompile(`[A-Za-z_][A-Za-z0-9_.]*`)
 
 func loadSpecLib(dir string) (*SpecLib, error) {
-	lib := &SpecLib{blocks: map[Mode][]*specBlock{}, byName: map[Mode]map[string]*specBlock{}, fns: map[Mode]map[string]*specFn{}}
+	lib := &SpecLib{blocks: map[Mode][]*specBlock{}, byName: map[Mode]map[string]*specBlock{}, fns: map[Mode]map[string]*specFn{}, axioms: map[Mode]map[string]bool{}}
 	for _, m := range []Mode{ModeBV, ModeInt} {
 		lib.byName[m] = map[string]*specBlock{}
 		lib.fns[m] = map[string]*specFn{}
+		lib.axioms[m] = map[string]bool{}
 		path := fmt.Sprintf("%s/%s.smt2", dir, m.String())
 		data, err := os.ReadFile(path)
 		if err != nil {
@@ -1071,6 +1077,10 @@ func loadSpecLib(dir string) (*SpecLib, error) {
 				continue
 			}
 			if cur == nil {
+				continue
+			}
+			if mm := axiomRe.FindStringSubmatch(strings.TrimSpace(line)); mm != nil {
+				lib.axioms[m][mm[1]] = true
 				continue
 			}
 			if mm := sigRe.FindStringSubmatch(line); mm != nil {
